@@ -57,6 +57,11 @@ def cases(tier, seed):
                 out.append({'k': 3, 'ov': list(ov), 'mode': mode, 'bound': 1})
     # backlog: the application thread hands over N snapshots before any worker gets to run (N pending at once), then flushes;
     # non-preemptive schedules only (the first one is 'all N pushes, then the workers'), capped
+    # the handler is entered again on the thread that is inside submit_task (a signal handler calling shutdown -> flush; a tracepoint
+    # of the application that matches the agent's own file and line and hands a snapshot over): it must not wait for itself
+    for what in ('flush', 'submit'):
+        for where in ('submit', 'flush'):
+            out.append({'k': 'reentrant', 'inner': what, 'outer': where})
     for n in ((4, 8, 9, 16, 17, 33) if tier == 'quick' else (4, 8, 9, 16, 17, 33, 64, 65, 129)):
         out.append({'k': n, 'ov': ['ok'] * (n - 1) + ['exc'], 'mode': 'A', 'bound': 0, 'cap': 300 if tier == 'quick' else 3000})
     return out
@@ -249,7 +254,75 @@ def oracle(ctx, desc):
     return on_exec
 
 
+def reentrant(ctx, desc):
+    """Real TaskHandler, real pool, one thread: while it executes a line of submit_task / flush (every line in turn), the same thread
+    enters the handler again (as a signal handler or a tracepoint on that line would). Nothing may block for ever."""
+    import sys
+    import threading
+    import deep.task as T
+    fn = 'submit_task' if desc['outer'] == 'submit' else 'flush'
+    code = getattr(T.TaskHandler, fn).__code__
+    lines = sorted({ln for _, _, ln in code.co_lines() if ln is not None})
+    ctx.case()
+    for line in lines:
+        th = T.TaskHandler()
+        state = {'fired': False, 'inner_exc': None}
+
+        def inner():
+            try:
+                if desc['inner'] == 'flush':
+                    th.flush()
+                else:
+                    th.submit_task(lambda: None)
+            except T.IllegalStateException:
+                pass
+            except BaseException as e:
+                state['inner_exc'] = e
+
+        def local(frame, event, arg):
+            if event == 'line' and frame.f_lineno == line and not state['fired']:
+                state['fired'] = True
+                sys.settrace(None)
+                inner()
+            return local
+
+        def tracer(frame, event, arg):
+            return local if frame.f_code is code else None
+
+        def body():
+            sys.settrace(tracer)
+            try:
+                if fn == 'submit_task':
+                    try:
+                        th.submit_task(lambda: None)
+                    except T.IllegalStateException:
+                        pass
+                else:
+                    th.submit_task(lambda: None)
+                    th.flush()
+            finally:
+                sys.settrace(None)
+        t = threading.Thread(target=body, name='host-reentrant', daemon=True)
+        t.start()
+        t.join(8)
+        ctx.nt(('reentrant', desc['inner'], desc['outer'], line))
+        if t.is_alive():
+            ctx.violation(f'C09/self-deadlock/{desc["inner"]}-inside-{desc["outer"]}', f'the thread executing line {line} of TaskHandler.{fn} entered {desc["inner"]}() again '
+                          f'(signal handler / tracepoint on that line) and never came back: it waits for a lock it holds itself', desc)
+            return
+        if state['inner_exc'] is not None:
+            ctx.violation(f'C09/reentrant-raised/{type(state["inner_exc"]).__name__}', f'{desc} at line {line}: {state["inner_exc"]!r}', desc)
+            return
+        try:
+            th._pool.shutdown(wait=False)
+        except BaseException:
+            pass
+    ctx.outcome(('reentrant', desc['inner'], desc['outer']))
+
+
 def run_case(ctx, desc):
+    if desc.get('k') == 'reentrant':
+        return reentrant(ctx, desc)
     TIER['t'] = ctx.tier
     make = make_factory(desc)
     with patches():
